@@ -166,6 +166,14 @@ def enumerate_cases(tier, seed):
                     d2[0], d2[-1] = d2[-1], d2[0]
                     dev = {"cells": d2, "nan": None, "name": "swapends"}
                     cases.append({"carver": "multiclass", "kind": kind, "cells": [list(c) for c in cells], "nan": None, "dev": dev, "cfg": dict(cfg0, min_freq_mod=0.25), "seed": seed, "classes": labels})
+    # a categorical feature that comes with a previous grouping of its categories (values_orders of a non-ordinal feature)
+    tabs, tr = carving_space.tables("multiclass", "CAT", tier, kmax=3 if tier == "quick" else 4)
+    for cells in tabs:
+        if len(cells) < 3:
+            continue
+        for labels in CLASS_LABELS[:2]:
+            for cfg in (cfg0, dict(cfg0, output_dtype="str", max_n_mod=4)):
+                cases.append({"carver": "multiclass", "kind": "CAT", "cells": [list(c) for c in cells], "nan": None, "dev": None, "cfg": cfg, "seed": seed, "classes": labels, "pregroup": True})
     # user-chosen sentinels and a new frame with a never-seen modality / missing value
     KW = {"str_nan": "MISSING", "str_default": "OTHERS"}
     for kind in ("CAT", "ORD", "QNT"):
